@@ -268,7 +268,7 @@ static void run_group(Context& cx, const Group& g, const Resolved& r, bool mine)
     {
         if (!mine)
             return;
-        sweep_masks(cx, d, t, r, thorough ? 20 : 16);
+        sweep_masks(cx, d, t, r, thorough ? 18 : 16);
         if (cx.opt.budget > 0)
             rc_group(cx, d, t, r, cx.opt.budget * 4);
         return;
@@ -295,7 +295,7 @@ static void run_group(Context& cx, const Group& g, const Resolved& r, bool mine)
         uint64_t total = 1;
         for (auto& l : L)
             total *= l.size();
-        uint64_t cap = thorough ? (1ull << 29) : (1ull << 20);
+        uint64_t cap = thorough ? (1ull << 26) : (1ull << 20);
         if (cx.opt.prop == "C17" && !thorough)
             cap = 1ull << 17; // C17 runs 24 targets per case (scalar + batch): the dense sweeps belong to C01/C07
         cap *= (uint64_t)std::max<long>(1, cx.opt.sweep);
@@ -326,7 +326,7 @@ static void run_group(Context& cx, const Group& g, const Resolved& r, bool mine)
         }
         if (t == F32 && !d.cheap_only)
         {
-            const uint64_t stride = thorough ? 1 : (cx.opt.prop == "C17" ? 2053 : 257);
+            const uint64_t stride = thorough ? 7 : (cx.opt.prop == "C17" ? 2053 : 257); // --sweep-all (stride 1) is not offered: 2^32 x ops x 22 targets takes hours
             const uint64_t count = (1ull << 32) / stride;
             sweep_range(cx, d, t, r, thorough ? 0 : mix64(seed) % stride, stride, count, W, NW);
             if (mine)
